@@ -5,6 +5,9 @@
     borsh/src/schema/container_ext/max_size.rs with [usize] = 64 bits; [max_size_at ub] is the
     same code with a [ub]-bit [usize]; [max_size c = max_size_at 64 c] by definition.
     [sizes], [Reach], [OnCycle], [Inhabited], [max_unbounded] are specifications (SchemaSpec.v).
+    [sizes] is tied to actual byte strings in SchemaSizes.v: [C09_sdec_sizes] (what the
+    container-driven decoder [sdec] consumes is one of the [sizes]) and [C09_bounds_encodings]
+    (for a Rust type, every encoding of every value is within the reported maximum).
 
     Hypothesis [ranges_fit 64 c] (only on the statements that compare with the unbounded
     maximum: refinement, precision of [Overflow]): every [*length_range.end()] is
@@ -16,6 +19,7 @@
     [C09_refines_refuted_32bit] at the end. *)
 From Coq Require Import String List NArith ZArith.
 From Borsh Require Import Schema SchemaFns SchemaSpec SchemaProofsBase SchemaProofsC09 SchemaProofsMaxDirect SchemaProofsExamples.
+From Borsh Require Import Bytes Result Ty Ser C04Facts SchemaOf SchemaDec SchemaOfCover SchemaOfDecode SchemaSizes.
 Import ListNotations.
 Local Open Scope N_scope.
 
@@ -51,6 +55,42 @@ Theorem C09_sound : forall c m,
   max_size c = SOk m -> forall n, sizes c (root c) n -> n <= m.
 Proof. exact (c09_sound_any 64). Qed.
 Print Assumptions C09_sound.
+
+(** The yardstick [sizes] measures real byte strings.  Whatever the decoder that is driven by the
+    container alone ([sdec], SchemaDec.v: C08) accepts as a value of declaration [d], from any
+    input, with any fuel, for ANY container: it consumed a prefix of the input, and the number
+    of bytes consumed is one of [sizes c d].  With [C09_sound]: nothing [sdec] reads as a value
+    of the root declaration is longer than the reported maximum. *)
+Theorem C09_sdec_sizes : forall c d fuel bs sv rest,
+  sdec c d fuel bs = Some (sv, rest) -> len rest <= len bs /\ sizes c d (len bs - len rest).
+Proof. exact sdec_sizes. Qed.
+Print Assumptions C09_sdec_sizes.
+
+Theorem C09_sdec_prefix_sizes : forall c d fuel bs sv rest,
+  sdec c d fuel bs = Some (sv, rest) -> exists pre, bs = (pre ++ rest)%list /\ sizes c d (len pre).
+Proof. exact sdec_prefix_sizes. Qed.
+Print Assumptions C09_sdec_prefix_sizes.
+
+(** "For Rust types, all values": when [max_serialized_size] of the container of a type reports
+    [m], the encoding of EVERY value of the type is at most [m] bytes long.  Hypotheses: those
+    of C08_decodes_partial ([wf], [has_schema], typed defaults of skipped fields [dflt_ok], name
+    coherence [coherent]: without coherence the container may describe another layout than the
+    type's, finding F13 / C08_decodes_refuted).  [enc t v = Ok bs]: the encoder did not refuse
+    the value (C02_refuses). *)
+Theorem C09_bounds_encodings : forall t v c m bs,
+  wf t = true -> dflt_ok t = true -> has_schema t = true -> coherent t = true ->
+  schema_of t = Ok c -> max_size c = SOk m -> has_ty t v = true -> enc t v = Ok bs ->
+  len bs <= m.
+Proof. exact max_size_bounds_enc. Qed.
+Print Assumptions C09_bounds_encodings.
+
+(** ... because the length of every encoding is one of the root declaration's [sizes] *)
+Theorem C09_encodings_are_sizes : forall t v c bs,
+  wf t = true -> dflt_ok t = true -> has_schema t = true -> coherent t = true ->
+  schema_of t = Ok c -> has_ty t v = true -> enc t v = Ok bs ->
+  sizes c (root c) (len bs).
+Proof. exact enc_len_sizes. Qed.
+Print Assumptions C09_encodings_are_sizes.
 
 (** Exactness: when every reachable declaration describes at least one value, some value
     has exactly the reported size (no hypothesis on the field ranges). *)
@@ -138,6 +178,47 @@ Proof.
   assert (Hm : max_size ex_arr = SOk 27) by (vm_compute; reflexivity).
   split; [exact Hfit|]. split; [vm_compute; reflexivity|]. split; [exact Hm|].
   split; [apply (C09_sound _ _ Hm) | apply (C09_exact _ _ Hm), ex_arr_inhabited].
+Qed.
+
+(** [C09_bounds_encodings] on a Rust type: the struct
+      struct P { a: [Option<u16>; 3], #[borsh(skip)] b: u32, c: Result<bool, (u64, E)> }   enum E { A, B(u8, i16) }
+    meets the hypotheses ([b] is not on the wire), its container reports 22 = 3*(1+2) + 1 + (8 + 1 + (1+2)),
+    one value attains it, another takes 5 bytes, and every value's encoding is within it. *)
+Definition ex_p : ty :=
+  TProd (PStruct "P" ["a"; "b"; "c"] [false; true; false])
+    [TArray 3 (TSum KOption [TProd (PVariant [] []) []; TPrim (PInt false W2)]);
+     TPrim (PInt false W4);
+     TSum KResult [TPrim PBool;
+                   TProd PTuple [TPrim (PInt false W8);
+                                 TSum (KEnum "E" ["A"; "B"] [0; 1])
+                                   [TProd (PVariant [] []) [];
+                                    TProd (PVariant [] [false; false]) [TPrim (PInt false W1); TPrim (PInt true W2)]]]]].
+Definition ex_pv : val :=
+  VL [VL [VV 1 (VN 513); VV 1 (VN 0); VV 1 (VN 65535)]; VN 7; VV 1 (VL [VN 1234567890123; VV 1 (VL [VN 9; VN 65535])])].
+Definition ex_pv_small : val :=
+  VL [VL [VV 0 (VL []); VV 0 (VL []); VV 0 (VL [])]; VN 7; VV 0 (VN 1)].
+
+Example C09_bounds_encodings_instance :
+  wf ex_p = true /\ dflt_ok ex_p = true /\ has_schema ex_p = true /\ coherent ex_p = true /\
+  has_ty ex_p ex_pv = true /\ has_ty ex_p ex_pv_small = true /\
+  exists c, schema_of ex_p = Ok c /\ max_size c = SOk 22 /\
+    (exists bs, enc ex_p ex_pv = Ok bs /\ len bs = 22) /\
+    (exists bs, enc ex_p ex_pv_small = Ok bs /\ len bs = 5) /\
+    (forall v bs, has_ty ex_p v = true -> enc ex_p v = Ok bs -> len bs <= 22).
+Proof.
+  assert (Hw : wf ex_p = true) by reflexivity.
+  assert (Hd : dflt_ok ex_p = true) by reflexivity.
+  assert (Hs : has_schema ex_p = true) by reflexivity.
+  assert (Hc : coherent ex_p = true) by (vm_compute; reflexivity).
+  split; [exact Hw|]. split; [exact Hd|]. split; [exact Hs|]. split; [exact Hc|].
+  split; [vm_compute; reflexivity|]. split; [vm_compute; reflexivity|].
+  destruct (schema_of ex_p) as [c| |] eqn:Ec; try (vm_compute in Ec; discriminate Ec).
+  exists c. split; [reflexivity|].
+  assert (Hm : max_size c = SOk 22) by (vm_compute in Ec; injection Ec as <-; vm_compute; reflexivity).
+  split; [exact Hm|].
+  split; [eexists; split; vm_compute; reflexivity|].
+  split; [eexists; split; vm_compute; reflexivity|].
+  intros v bs Hty Henc. exact (C09_bounds_encodings ex_p v c 22 bs Hw Hd Hs Hc Ec Hm Hty Henc).
 Qed.
 
 (** [Vec<Vec<u8>>] overflows, [struct R(Option<Box<R>>)] is recursive, a dangling name is missing. *)
